@@ -38,7 +38,7 @@ Definition P (d b : nat) (e : Z) : path := mkPath d b (if (e =? 0)%Z then XNc el
 Definition T (tag : Z) (i : option Z) (sg : Z) (k : Z) (sz : nat) : traj := mkTraj tag i sg (if (k =? 0)%Z then TOk else TMissingReq) sz.
 '''
 
-FINDINGS = ('F5', 'F6', 'F7', 'F8', 'C08a', 'C09a', 'C10a')
+FINDINGS = ('F5', 'F6', 'F7', 'F8', 'C08a', 'C09a', 'C10a', 'C07a', 'C07b')
 SIG = {
     'F5': 'append-session-uncached-read-returns-shifted-item',
     'F6': 'add-missing-required-not-validated-before-mutation',
@@ -48,6 +48,7 @@ SIG = {
     'C09a': 'merge-inputs-sharing-a-file-name-overwrite-each-other',
     'C10a': 'append-session-empty-cache-skips-fieldset-check',
     'C07a': 'read-of-a-trajectory-larger-than-the-cache-raises-value-too-large',
+    'C07b': 'file-backed-add-of-a-trajectory-larger-than-the-cache-refused-value-too-large',
     'C09b': 'merge-input-named-like-the-merged-index-file',
     'C10b': 'first-add-lacking-declared-associated-fieldset-creates-files-then-fails',
 }
@@ -616,6 +617,17 @@ class Oracle:
         st = self.files.get(h['path'])
         return (st['sig'], st['ident']) if st else None
 
+    def undo_last_add(self):
+        h = self.h
+        if h is None or h['kind'] != 'file' or h['path'] not in self.files:
+            return
+        st = self.files[h['path']]
+        if st['items']:
+            st['items'].pop()
+            h['adds'] -= 1
+        if not st['items'] and h['mode'] == 'create':
+            del self.files[h['path']]
+
     def ctx(self):
         h = self.h
         if h is None:
@@ -696,7 +708,7 @@ class Oracle:
                 return ['OErr', 'EReject']
             # the store keeps every trajectory it accepted; one that is larger than the whole cache is refused,
             # and an in-memory store refuses what does not fit any more (it cannot evict)
-            if h['cap'] is not None and size > h['cap']:
+            if h['kind'] == 'mem' and size > h['cap']:
                 return ['OErr', 'ETooLarge']
             if h['kind'] == 'mem':
                 if h['used'] + size > h['cap']:
@@ -859,6 +871,10 @@ def classify(hist, k, impl, want, ctx, want_f6, ctx6=None):
                 and isinstance(want, list) and want[0] == 'OItems' and impl[1] == want[1][:len(impl[1])] \
                 and len(impl[1]) < len(want[1]) and oversized(want[1][len(impl[1])]):
             return SIG['C07a']
+    # C07b: a file-backed store refuses a valid trajectory only because it is larger than the cache
+    if ctx and op == 'add' and ctx['kind'] == 'file' and ctx.get('cap') is not None and impl == ['OErr', 'ETooLarge'] \
+            and isinstance(want, list) and want[0] == 'OIdx' and size_of_add(o) > ctx['cap']:
+        return SIG['C07b']
     # F8: in-memory identified store
     if ctx and ctx['kind'] == 'mem' and op in ('get_flight', 'close', 'sync') and impl == ['OErr', 'EKeyBase'] \
             and ctx['def'] is not None and ctx['def'][1]:
@@ -947,6 +963,11 @@ def detect_cfg(chk: Check):
     cfg['C09a'] = r[-1]['out'] != 'OUnit'
     r, _ = run('c10a', [dict(op='create', p=P0), mk(tag=0), dict(op='close'), dict(op='open_a', p=P0), mk(tag=1, sig=1)])
     cfg['C10a'] = r[-1]['out'] == ['OErr', 'ESchema']
+    r, _ = run('c07a', [dict(op='create', p=P0), mk(tag=0, npts=12), dict(op='close'), dict(op='open_r', p=P0, cache_b=700),
+                        dict(op='get', i=0)])
+    cfg['C07a'] = r[-1]['out'] == ['OItem', 0]
+    r, _ = run('c07b', [dict(op='create', p=P0, cache_b=700), mk(tag=0, npts=12)])
+    cfg['C07b'] = r[-1]['out'] == ['OIdx', 0]
     return cfg
 
 
@@ -1003,6 +1024,10 @@ def judge(chk: Check, hc, recs, view, mr, cfg, nontrivial, leftovers=True):
             found.append((k, want, sig))
             if sig in (SIG['F5'], SIG['C07a']):
                 continue                      # a wrong read changes nothing: the reference stays valid
+            if sig == SIG['C07b']:
+                orc.undo_last_add()           # the refusal itself is clean: follow the store as it now is
+                orc6.undo_last_add()
+                continue
             oracle_alive = False
             if sig is None or sig in (SIG['F6'], SIG['F8'], SIG['C08a'], SIG['C10a']):
                 cut = k                       # the store itself is damaged / the handle is wedged from here on
@@ -1789,6 +1814,18 @@ def run_property(chk: Check, pid: str, props: str, generated, nontrivial, scenar
         extra(chk, cfg)
 
 
+def finding_status(fid):
+    from harness.common import VERIF
+    st = None
+    entries = list(json.loads((VERIF / 'known_findings.json').read_text())['findings'])
+    for f in sorted((VERIF / 'known_findings.d').glob('*.json')):
+        entries.append(json.loads(f.read_text()))
+    for k in entries:
+        if k.get('id') == fid:
+            st = 'fixed' if k.get('status') == 'fixed' or st == 'fixed' else k.get('status')
+    return st
+
+
 def link_store_protocol(chk: Check):
     """Static tie: regenerate the protocol facts from trajectories/store.py (fail-closed, one obligation per method) and
     re-prove coq/link/Store_Link.v against them."""
@@ -1797,11 +1834,20 @@ def link_store_protocol(chk: Check):
     chk.trusted.append('translator/store_extract.py (statement shapes of the store protocol methods)')
     text, status = store_extract.extract_store_protocol(REPO / 'src/AEIC/trajectories/store.py')
     for m, st in status.items():
+        if m == '__cfg__':
+            continue
         chk.obligations.append({'name': f'extract:trajectories/store.py:{m}', 'ok': st == 'ok'})
         if st != 'ok':
             chk.broken(f'extract:trajectories/store.py:{m}', st)
+    xcfg = status.pop('__cfg__', None)
     if text is None:
         return False
+    if finding_status('FC07b') == 'fixed':
+        ok = bool(xcfg and xcfg['C07b'])
+        chk.obligations.append({'name': 'Store_Link:Store_link_FC07b_applied', 'ok': ok})
+        if not ok:
+            chk.broken('link:Store_link_FC07b_applied', 'finding FC07b is recorded as fixed, but add() does not have the '
+                       'repaired shape (cache insertion only if it fits, file creation and write from the trajectory itself)')
     if chk.coq_compile_gen('Store_Extracted', text) is None:
         return False
     return chk.coq_link('Store_Link.v')
